@@ -595,3 +595,63 @@ impl<'a> BytesDecl<'a> {
     }
 //@end
 }
+
+// ---- `Deref<Target = [u8]>` of the event types: exactly the stored bytes (C08, C09, C19; used by the writer and by comparisons) ----
+//@extract events::BytesStart::Deref | src/events/mod.rs :: impl<'a> Deref for BytesStart<'a> | serves=C08,C09,C19
+impl<'a> Deref for BytesStart<'a> {
+    type Target = [u8];
+
+    fn deref(&self) -> (r: &[u8])
+        ensures r@ == self.buf@
+    {
+        proof { axiom_cow_bytes(&self.buf); }
+        &self.buf
+    }
+}
+//@end
+//@extract events::BytesEnd::Deref | src/events/mod.rs :: impl<'a> Deref for BytesEnd<'a> | serves=C08,C09,C19
+impl<'a> Deref for BytesEnd<'a> {
+    type Target = [u8];
+
+    fn deref(&self) -> (r: &[u8])
+        ensures r@ == self.name@
+    {
+        proof { axiom_cow_bytes(&self.name); }
+        &self.name
+    }
+}
+//@end
+//@extract events::BytesCData::Deref | src/events/mod.rs :: impl<'a> Deref for BytesCData<'a> | serves=C08,C09,C19
+impl<'a> Deref for BytesCData<'a> {
+    type Target = [u8];
+
+    fn deref(&self) -> (r: &[u8])
+        ensures r@ == self.content@
+    {
+        proof { axiom_cow_bytes(&self.content); }
+        &self.content
+    }
+}
+//@end
+//@extract events::BytesPI::Deref | src/events/mod.rs :: impl<'a> Deref for BytesPI<'a> | serves=C08,C09,C19
+impl<'a> Deref for BytesPI<'a> {
+    type Target = [u8];
+
+    fn deref(&self) -> (r: &[u8])
+        ensures r@ == self.content.buf@
+    {
+        &self.content
+    }
+}
+//@end
+//@extract events::BytesDecl::Deref | src/events/mod.rs :: impl<'a> Deref for BytesDecl<'a> | serves=C08,C09,C19
+impl<'a> Deref for BytesDecl<'a> {
+    type Target = [u8];
+
+    fn deref(&self) -> (r: &[u8])
+        ensures r@ == self.content.buf@
+    {
+        &self.content
+    }
+}
+//@end
